@@ -91,26 +91,28 @@ impl<'a> DeserializationContext<'a> {
 
 impl<'a> BinaryInput for DeserializationContext<'a> {
     fn read_u8(&mut self) -> Result<u8> {
-        if self.current.pos == self.current.end {
+        let start = self.current.start + self.current.pos;
+        if start >= self.current.end {
             Err(Error::InputEndedUnexpectedly)
         } else {
             self.current.pos += 1;
-            Ok(self.input[self.current.start + self.current.pos - 1])
+            Ok(self.input[start])
         }
     }
 
     fn read_bytes(&mut self, count: usize) -> Result<&[u8]> {
-        if self.current.pos + count > self.current.end {
+        let start = self.current.start + self.current.pos;
+        if count > self.current.end.saturating_sub(start) {
             Err(Error::InputEndedUnexpectedly)
         } else {
-            let start = self.current.start + self.current.pos;
             self.current.pos += count;
-            Ok(&self.input[start..(self.current.start + self.current.pos)])
+            Ok(&self.input[start..start + count])
         }
     }
 
     fn skip(&mut self, count: usize) -> Result<()> {
-        if self.current.pos + count > self.current.end {
+        let start = self.current.start + self.current.pos;
+        if count > self.current.end.saturating_sub(start) {
             Err(Error::InputEndedUnexpectedly)
         } else {
             self.current.pos += count;
